@@ -213,7 +213,8 @@ def _case(seed: int) -> Dict[str, Any]:
     if seed % 3 == 1:
         for e in evs:  # communication kernels under their full templated names (return type first): the class is decided on the SHORTENED name
             if e.get("name") == "ncclKernel_AllReduce_RING_LL_Sum_float":
-                e["name"] = "void ncclKernel_AllReduce_RING_LL_Sum<float, 4>(ncclWork*)"
+                # templated (return type first) on half of these traces, NCCL 2.4-2.7 naming (text between "nccl" and "Kernel") on the other half
+                e["name"] = "void ncclKernel_AllReduce_RING_LL_Sum<float, 4>(ncclWork*)" if seed % 2 else "ncclAllReduceRingLLKernel_sum_f32(ncclColl)"
     fails: List[Dict[str, Any]] = []
     inp = {"seed": seed, "instance_id": inst, "events": {0: evs}}
     with rt.trace_dir({0: evs}) as d:
